@@ -332,7 +332,7 @@ impl Check for C06 {
     }
     fn workloads(&mut self, tier: Tier, _seed: u64) -> Vec<(String, u64)> {
         let k = if tier == Tier::Quick { 1 } else { 20 };
-        vec![("edit-built".into(), 150_000 * k), ("toml-built".into(), 60_000 * k), ("fragments".into(), 40_000 * k)]
+        vec![("edit-built".into(), 150_000 * k), ("toml-built".into(), 60_000 * k), ("fragments".into(), 40_000 * k), ("conversions".into(), 40_000 * k)]
     }
     fn run(&mut self, ctx: &mut Ctx, workload: &str, index: u64, rng: &mut Rng) {
         ctx.eval();
@@ -440,6 +440,68 @@ impl Check for C06 {
                             other => ctx.violation("built-print-invalid:Key Display", format!("Key::new({k:?}) printed {kt:?}, which reads as {other:?}")),
                         }
                         ctx.count("prints-checked/Value+Key Display");
+                    }
+                }
+            }
+            "conversions" => {
+                // the same built tables turned into values: Table::into_inline_table,
+                // Item::into_value / make_value, ArrayOfTables Display / into_array at every level
+                let r = guarded(|| {
+                    let mut b = Builder { rng, routes: Vec::new() };
+                    let (t, exp) = b.table(&tree, 0);
+                    let mut outs: Vec<(&'static str, String, RVal)> = Vec::new();
+                    outs.push(("Table::into_inline_table", t.clone().into_inline_table().to_string(), exp.clone()));
+                    outs.push(("Item::into_value", toml_edit::Item::Table(t.clone()).into_value().map(|v| v.to_string()).unwrap_or_else(|_| "<refused>".into()), exp.clone()));
+                    let mut it = toml_edit::Item::Table(t.clone());
+                    it.make_value();
+                    outs.push(("Item::make_value", it.to_string(), exp.clone()));
+                    fn walk(t: &toml_edit::Table, exp: &RVal, outs: &mut Vec<(&'static str, String, RVal)>) {
+                        for (k, item) in t.iter() {
+                            let e = match exp.as_table().and_then(|x| x.get(k)) {
+                                Some(e) => e,
+                                None => continue,
+                            };
+                            match item {
+                                toml_edit::Item::ArrayOfTables(a) => {
+                                    outs.push(("ArrayOfTables Display", a.to_string(), e.clone()));
+                                    outs.push(("ArrayOfTables::into_array", toml_edit::Value::Array(a.clone().into_array()).to_string(), e.clone()));
+                                    outs.push(("Item::into_value(array of tables)", toml_edit::Item::ArrayOfTables(a.clone()).into_value().map(|v| v.to_string()).unwrap_or_else(|_| "<refused>".into()), e.clone()));
+                                    if let RVal::Array(es) = e {
+                                        for (el, ee) in a.iter().zip(es.iter()) {
+                                            walk(el, ee, outs);
+                                        }
+                                    }
+                                }
+                                toml_edit::Item::Table(s) => {
+                                    outs.push(("Item::into_value(sub-table)", toml_edit::Item::Table(s.clone()).into_value().map(|v| v.to_string()).unwrap_or_else(|_| "<refused>".into()), e.clone()));
+                                    walk(s, e, outs)
+                                }
+                                _ => {}
+                            }
+                        }
+                    }
+                    walk(&t, &exp, &mut outs);
+                    outs
+                });
+                match r {
+                    Err((loc, msg)) => ctx.violation(&format!("panic:{}", crate::short_loc(&loc)), format!("converting a built table panicked at {loc}: {msg}")),
+                    Ok(outs) => {
+                        for (route, text, exp) in outs {
+                            match refmodel::decode::decode_value(text.trim()) {
+                                Ok(x) => {
+                                    if let Some(diff) = exp.diff(&x, KeyOrder::Any) {
+                                        ctx.violation(&format!("built-print-decodes-differently:{route}"), format!("{diff}; printed {text:?}"));
+                                        return;
+                                    }
+                                    ctx.count(&format!("prints-checked/{route}"));
+                                }
+                                Err(e) if e == "limit" => {}
+                                Err(e) => {
+                                    ctx.violation(&format!("built-print-invalid:{route}"), format!("{route} printed {text:?}: {e}"));
+                                    return;
+                                }
+                            }
+                        }
                     }
                 }
             }
